@@ -287,3 +287,57 @@ def switch_surface_obligations(session, qualname, outputs, hyps, label='value', 
                             note='switch surface: %s = 0' % tm.show(d, 120))
                 n += 1
     return n, groups
+
+
+# ---------------------------------------------------------------------------
+# while-loop invariant rule for front end J (DESIGN §4.3)
+# ---------------------------------------------------------------------------
+
+def fresh_like(vals, base, nan_mode=False):
+    out = []
+    for k, v in enumerate(vals):
+        v = J.to_obj(v)
+        o = onp.empty(v.shape, dtype=object)
+        for idx in onp.ndindex(*v.shape):
+            el = v[idx]
+            nm = '%s%d%s' % (base, k, ''.join('_%d' % i for i in idx))
+            if isinstance(el, J.NV) or (el.sort == REAL and nan_mode):
+                o[idx] = J.NV(tm.var(nm), tm.var(nm + '.nan', BOOL), tm.var(nm + '.undef', BOOL))
+            else:
+                o[idx] = tm.var(nm, el.sort)
+        out.append(o)
+    return out
+
+
+def while_invariant_rule(S, qualname, inv, pre, nan_mode=False, assumes=None, step_replay=None, entry_replay=None):
+    """inv(carry) -> OrderedDict clause name -> Bool term.  Generates entry and step obligations,
+    returns a fresh exit state constrained by  inv ∧ ¬cond  (recorded in ``assumes``)."""
+    assumes = assumes if assumes is not None else []
+
+    def rule(eqn, cconsts, bconsts, init, ctx):
+        p = eqn.params
+        cj, bj = p['cond_jaxpr'], p['body_jaxpr']
+        guard = ctx.cur_guard()
+        hy = list(pre) + list(assumes) + ([guard] if guard is not tm.TRUE else [])
+        init = [J.to_obj(x) for x in init]
+        for name, cl in inv([C_unwrap(x) for x in init]).items():
+            S.add('%s/loop-invariant/entry/%s' % (qualname, name), hy, cl, prov=dict(function=qualname), replay=entry_replay)
+        c = fresh_like(init, 'c', nan_mode)
+        inv_c = list(inv([C_unwrap(x) for x in c]).values())
+        cond_c = J.scalar(J.eval_jaxpr(cj.jaxpr, cj.consts, list(cconsts) + c, ctx)[0])
+        S.canary(qualname + '/loop-invariant/step', hy + inv_c + [cond_c])
+        c2 = J.eval_jaxpr(bj.jaxpr, bj.consts, list(bconsts) + c, ctx)
+        for name, cl in inv([C_unwrap(J.to_obj(x)) for x in c2]).items():
+            S.add('%s/loop-invariant/step/%s' % (qualname, name), hy + inv_c + [cond_c], cl, prov=dict(function=qualname), replay=step_replay)
+        e = fresh_like(init, 'x', nan_mode)
+        cond_e = J.scalar(J.eval_jaxpr(cj.jaxpr, cj.consts, list(cconsts) + e, ctx)[0])
+        assumes.extend(list(inv([C_unwrap(x) for x in e]).values()) + [tm.not_(cond_e)])
+        return e
+    rule.assumes = assumes
+    return rule
+
+
+def C_unwrap(x):
+    if J.is_sym(x) and x.shape == ():
+        return x[()]
+    return x
